@@ -1,2 +1,248 @@
+//! C14 — OS-string helpers and the argument cursor behave like their simple models.
 use crate::util::*;
-pub fn run(_o: &Opts) -> Report { Report::new("C14", "todo") }
+use clap_lex::{OsStrExt as _, RawArgs, SeekFrom};
+use std::ffi::{OsStr, OsString};
+use std::os::unix::ffi::{OsStrExt as _, OsStringExt as _};
+use std::panic::{catch_unwind, AssertUnwindSafe};
+
+const NEEDLES: &[&str] = &["-", "--", "=", "é", "=é", ",", "a", "aa", "1e"];
+const OSOPS: &[&str] = &["find", "contains", "starts", "strip", "splitonce", "split"];
+
+fn naive_find(h: &[u8], n: &[u8]) -> Option<usize> {
+    if n.len() > h.len() { return None; }
+    (0..=h.len() - n.len()).find(|&i| &h[i..i + n.len()] == n)
+}
+
+/// real helper result in the driver's format + the byte-level oracle's expectation
+fn real_osstr(op: &str, h: &[u8], n: &str) -> (String, String) {
+    let os = OsStr::from_bytes(h);
+    let nb = n.as_bytes();
+    match op {
+        "find" => {
+            let f = |r: Option<usize>| r.map(|i| i.to_string()).unwrap_or("~".into());
+            (f(os.find(n)), f(naive_find(h, nb)))
+        }
+        "contains" => (b01(os.contains(n)).into(), b01(naive_find(h, nb).is_some()).into()),
+        "starts" => (b01(os.starts_with(n)).into(), b01(h.len() >= nb.len() && &h[..nb.len()] == nb).into()),
+        "strip" => (
+            opt_hex(os.strip_prefix(n).map(|s| s.as_bytes())),
+            opt_hex(if h.len() >= nb.len() && &h[..nb.len()] == nb { Some(&h[nb.len()..]) } else { None }),
+        ),
+        "splitonce" => (
+            match os.split_once(n) { None => "~".into(), Some((a, b)) => format!("{} {}", hex(a.as_bytes()), hex(b.as_bytes())) },
+            match naive_find(h, nb) { None => "~".into(), Some(i) => format!("{} {}", hex(&h[..i]), hex(&h[i + nb.len()..])) },
+        ),
+        "split" => {
+            let got: Vec<String> = os.split(n).take(10_000).map(|p| hex(p.as_bytes())).collect();
+            let mut exp = vec![];
+            let mut rest = h;
+            loop {
+                match naive_find(rest, nb) {
+                    Some(i) => { exp.push(hex(&rest[..i])); rest = &rest[i + nb.len()..]; }
+                    None => { exp.push(hex(rest)); break; }
+                }
+            }
+            (got.join(" "), exp.join(" "))
+        }
+        _ => unreachable!(),
+    }
+}
+
+#[derive(Clone, Debug)]
+enum COp { Next, Peek, Remaining, IsEnd, SeekStart(u64), SeekEnd(i64), SeekCur(i64), Insert(Vec<Vec<u8>>) }
+
+fn fmt_op(o: &COp) -> String {
+    match o {
+        COp::Next => "n".into(), COp::Peek => "p".into(), COp::Remaining => "r".into(), COp::IsEnd => "e".into(),
+        COp::SeekStart(u) => format!("ss{u}"), COp::SeekEnd(i) => format!("se{i}"), COp::SeekCur(i) => format!("sc{i}"),
+        COp::Insert(v) => format!("i{}", v.iter().map(|b| hex(b)).collect::<Vec<_>>().join(",")),
+    }
+}
+
+/// run on the real RawArgs; returns per-op results (driver format), stops at the first panic
+fn real_cursor(items: &[Vec<u8>], ops: &[COp]) -> Vec<String> {
+    let mut raw = RawArgs::new(items.iter().map(|b| OsString::from_vec(b.clone())));
+    let mut cur = raw.cursor();
+    let mut out = vec![];
+    for op in ops {
+        let r = catch_unwind(AssertUnwindSafe(|| match op {
+            COp::Next => opt_hex(raw.next_os(&mut cur).map(|s| s.as_bytes())),
+            COp::Peek => opt_hex(raw.peek_os(&cur).map(|s| s.as_bytes())),
+            COp::IsEnd => b01(raw.is_end(&cur)).to_string(),
+            COp::Remaining => format!("[{}]", raw.remaining(&mut cur).map(|s| hex(s.as_bytes())).collect::<Vec<_>>().join(",")),
+            COp::SeekStart(u) => { raw.seek(&mut cur, SeekFrom::Start(*u)); "ok".into() }
+            COp::SeekEnd(i) => { raw.seek(&mut cur, SeekFrom::End(*i)); "ok".into() }
+            COp::SeekCur(i) => { raw.seek(&mut cur, SeekFrom::Current(*i)); "ok".into() }
+            COp::Insert(v) => { raw.insert(&cur, v.iter().map(|b| OsString::from_vec(b.clone()))); "ok".into() }
+        }));
+        match r { Ok(s) => out.push(s), Err(_) => { out.push("PANIC".into()); break; } }
+    }
+    out
+}
+
+/// the abstract spec: an index `k` into a growable list; reads at k >= len see nothing
+fn spec_cursor(items: &[Vec<u8>], ops: &[COp]) -> Vec<String> {
+    let mut v: Vec<Vec<u8>> = items.to_vec();
+    let mut k: i128 = 0;
+    let mut out = vec![];
+    let clamp = |x: i128, len: usize| -> i128 { x.max(0).min(len as i128) };
+    for op in ops {
+        let len = v.len();
+        let at = |k: i128| -> Option<&Vec<u8>> { if k >= 0 && (k as usize) < len { Some(&v[k as usize]) } else { None } };
+        match op {
+            COp::Next => { out.push(opt_hex(at(k).map(|b| &b[..]))); k += 1; }
+            COp::Peek => out.push(opt_hex(at(k).map(|b| &b[..]))),
+            COp::IsEnd => out.push(b01(at(k).is_none()).into()),
+            COp::Remaining => {
+                let s = (k.min(len as i128)) as usize;
+                out.push(format!("[{}]", v[s..].iter().map(|b| hex(b)).collect::<Vec<_>>().join(",")));
+                k = len as i128;
+            }
+            COp::SeekStart(u) => { k = clamp(*u as i128, len); out.push("ok".into()); }
+            COp::SeekEnd(i) => { k = clamp(len as i128 + *i as i128, len); out.push("ok".into()); }
+            COp::SeekCur(i) => { k = clamp(k + *i as i128, len); out.push("ok".into()); }
+            COp::Insert(ins) => {
+                let s = (k.min(len as i128)) as usize;
+                let tail = v.split_off(s);
+                v.extend(ins.iter().cloned());
+                v.extend(tail);
+                out.push("ok".into());
+            }
+        }
+    }
+    out
+}
+
+fn op_pool(len: usize) -> Vec<COp> {
+    let mut v = vec![COp::Next, COp::Peek, COp::Remaining, COp::IsEnd, COp::Insert(vec![]), COp::Insert(vec![b"x".to_vec()]),
+        COp::Insert(vec![b"y".to_vec(), b"--z".to_vec()])];
+    for u in [0u64, 1, 2, len as u64, len as u64 + 1, u64::MAX, 1 << 63, (1u64 << 63) - 1] { v.push(COp::SeekStart(u)); }
+    for i in [0i64, 1, -1, 2, -2, i64::MIN, i64::MAX, len as i64, -(len as i64) - 1] { v.push(COp::SeekEnd(i)); v.push(COp::SeekCur(i)); }
+    v
+}
+
+pub fn run(o: &Opts) -> Report {
+    let mut rep = Report::new("C14", "OsStrExt: haystacks exhaustive over a boundary alphabet up to a length bound (then random <=48 bytes) x 9 UTF-8 needles x {find,contains,starts_with,strip_prefix,split_once,split}; RawArgs cursor: all op sequences up to a length bound over 0..3 items and an offset pool incl. i64/u64 extremes, then random sequences up to length 40; non-trivial = needle occurs in haystack / sequence contains a seek or insert; distinct by canonical request");
+    let mut reqs: Vec<String> = vec![];
+    let mut impls: Vec<String> = vec![];
+    let mut rng = Rng::new(o.seed);
+    if let Some(r) = &o.replay {
+        let v: serde_json::Value = serde_json::from_str(&std::fs::read_to_string(r).unwrap()).unwrap();
+        let case = v["case"].as_str().unwrap_or("").to_string();
+        rep.notes.push(format!("replay of: {case}"));
+        let toks: Vec<&str> = case.split(' ').collect();
+        if toks[0] == "osstr" {
+            let (got, exp) = real_osstr(toks[1], &unhex(toks[2]), std::str::from_utf8(&unhex(toks[3])).unwrap());
+            rep.notes.push(format!("impl={got} byte-level={exp}"));
+            reqs.push(case.clone()); impls.push(got);
+        }
+        // cursor replays are re-generated below from the same text by the driver only
+        let model = driver_batch(&o.driver, &reqs, 1);
+        rep.notes.push(format!("model={:?}", model));
+        return rep;
+    }
+    // ---------- OsStrExt
+    let alphabet = crate::c13::ALPHABET;
+    let mut hays: Vec<Vec<u8>> = vec![];
+    let maxlen = if o.thorough() { 4 } else { 3 };
+    for l in 0..=maxlen {
+        let k = alphabet.len();
+        for mut n in 0..k.pow(l as u32) {
+            let mut v = Vec::with_capacity(l);
+            for _ in 0..l { v.push(alphabet[n % k]); n /= k; }
+            hays.push(v);
+        }
+    }
+    rep.exhaustive = true;
+    rep.count_n("haystacks_exhaustive", hays.len() as u64);
+    for _ in 0..(if o.thorough() { 60_000 } else { 8_000 }) {
+        let len = rng.below(48);
+        let mut v = vec![];
+        while v.len() < len {
+            match rng.below(8) {
+                0 => v.push(rng.below(256) as u8),
+                1 => v.extend_from_slice(rng.pick(NEEDLES).as_bytes()),
+                2 => v.extend_from_slice(&"é".as_bytes()[..1 + rng.below(2)]),
+                _ => v.push(*rng.pick(alphabet)),
+            }
+        }
+        hays.push(v);
+    }
+    for h in &hays {
+        for n in NEEDLES {
+            for op in OSOPS {
+                let req = format!("osstr {} {} {}", op, hex(h), hex(n.as_bytes()));
+                let r = catch_unwind(|| real_osstr(op, h, n));
+                let (got, exp) = match r { Ok(x) => x, Err(_) => ("PANIC".to_string(), "no-panic".to_string()) };
+                if got != exp {
+                    let class = if got == "PANIC" { "osstr-panic".to_string() } else { format!("osstr-{op}-differs-from-bytes") };
+                    rep.oracle_fail(&class, &req, &format!("impl={got} byte-level={exp}"));
+                }
+                let nontrivial = naive_find(h, n.as_bytes()).is_some();
+                rep.case(&req, nontrivial);
+                if nontrivial { rep.count("needle_present"); } else { rep.count("needle_absent"); }
+                reqs.push(req);
+                impls.push(got);
+            }
+        }
+    }
+    // ---------- cursor
+    let item_sets: Vec<Vec<Vec<u8>>> = vec![vec![], vec![b"a".to_vec()], vec![b"a".to_vec(), b"-b".to_vec()], vec![b"a".to_vec(), b"--".to_vec(), vec![0xff]]];
+    let mut seqs: Vec<(Vec<Vec<u8>>, Vec<COp>)> = vec![];
+    let exh_len = if o.thorough() { 4 } else { 3 };
+    for items in &item_sets {
+        let pool = op_pool(items.len());
+        // all sequences up to exh_len over the pool
+        let k = pool.len();
+        for l in 1..=exh_len {
+            for mut n in 0..k.pow(l as u32) {
+                let mut s = Vec::with_capacity(l);
+                for _ in 0..l { s.push(pool[n % k].clone()); n /= k; }
+                seqs.push((items.clone(), s));
+            }
+        }
+    }
+    rep.count_n("cursor_sequences_exhaustive", seqs.len() as u64);
+    for _ in 0..(if o.thorough() { 200_000 } else { 30_000 }) {
+        let items = rng.pick(&item_sets).clone();
+        let pool = op_pool(items.len());
+        let l = 1 + rng.below(40);
+        let mut s = vec![];
+        for _ in 0..l {
+            s.push(match rng.below(12) {
+                0 => COp::SeekCur(rng.next() as i64),
+                1 => COp::SeekEnd(-(rng.below(5) as i64)),
+                2 => COp::SeekStart(rng.below(6) as u64),
+                _ => rng.pick(&pool).clone(),
+            });
+        }
+        seqs.push((items, s));
+    }
+    for (items, ops) in &seqs {
+        let req = format!("cursor {} {} {}", items.len(), items.iter().map(|b| hex(b)).collect::<Vec<_>>().join(" "),
+            ops.iter().map(fmt_op).collect::<Vec<_>>().join(" ")).replace("  ", " ");
+        let got = real_cursor(items, ops);
+        let exp = spec_cursor(items, ops);
+        if got != exp {
+            let class = if got.last().map(|s| s == "PANIC").unwrap_or(false) {
+                // which op panicked, and was the cursor one past the end because next() returned None?
+                let idx = got.len() - 1;
+                let past_end = matches!(ops[idx], COp::Remaining | COp::Insert(_));
+                if past_end { "cursor-panic:remaining-or-insert-after-next-past-end".to_string() } else { "cursor-panic".to_string() }
+            } else { "cursor-differs-from-list-index".to_string() };
+            rep.oracle_fail(&class, &req, &format!("impl={} spec={}", got.join(" "), exp.join(" ")));
+        }
+        let nontrivial = ops.iter().any(|o| matches!(o, COp::SeekStart(_) | COp::SeekEnd(_) | COp::SeekCur(_) | COp::Insert(_)));
+        rep.case(&req, nontrivial);
+        rep.count("cursor_sequences");
+        reqs.push(req);
+        impls.push(got.join(" "));
+    }
+    if o.driver != "none" {
+        let model = driver_batch(&o.driver, &reqs, o.par);
+        for ((req, m), i) in reqs.iter().zip(model.iter()).zip(impls.iter()) {
+            if m != i { rep.disagree("c14", req, m, i); }
+        }
+    } else { rep.notes.push("driver unavailable: model comparison skipped".into()); }
+    rep
+}
